@@ -2,9 +2,15 @@
 Tie by translation (C17, pkg/vm/stackitem/item.go CheckIntegerSize): the generated `GoFuncs.wireCheckIntegerSize` is
 re-translated from /repo on every check run (harness/cmd/extract/gofuncs_c17.go); proved here: it accepts exactly the
 integers of the model's `intFits` (the bound of NewBigInteger — where FromJSONWithTypes / FromJSON panic beyond it).
+Translator v2 (several results, field writes, effect lists): the scope checks and read order of Signer.DecodeBinary,
+ScopesFromByte, ToInt32 / ToUint16, ByteArray.TryInteger, PutVarUint, the size cache of Transaction.DecodeBinary /
+Size (fix 67279e2), NewTransactionFromBytes, Header / GetBlockByIndex / MethodToken decoders, nef.File.bytes.
 -/
 import NeoModel.Generated.GoFuncs
 import NeoModel.Model.Wire.ItemJson
+import NeoModel.Model.Wire.Manifest
+import NeoModel.Model.Wire.Obj
+import NeoModel.Model.Wire.P2P
 namespace NeoModel.GoFuncsTie
 open NeoModel NeoModel.Generated NeoModel.Wire
 
@@ -174,5 +180,218 @@ theorem checkIntegerSize_eq (n : Int) :
 
 example : GoFuncs.wireCheckIntegerSize 256 (-1) 255 = "ok" ∧ GoFuncs.wireCheckIntegerSize 256 1 255 = "err"
     ∧ GoFuncs.wireCheckIntegerSize 255 1 0 = "ok" ∧ GoFuncs.wireCheckIntegerSize 257 (-1) 256 = "err" := by decide
+
+/-! ### scopes: the two places that judge a scope byte -/
+
+set_option maxRecDepth 1000000 in
+theorem scopesFromByte_all : (List.range 256).all (fun b =>
+    (GoFuncs.wireScopesFromByte (b : Int) == ((b : Int), "ok")) == scopeOk (UInt8.ofNat b)
+      && ((GoFuncs.wireScopesFromByte (b : Int)).2 == "ok" || (GoFuncs.wireScopesFromByte (b : Int)).2 == "err")) = true := by
+  decide
+
+/-- `transaction.ScopesFromByte` (the RPC / CLI entry) accepts exactly the scope bytes `Signer.DecodeBinary` accepts
+(the model's `scopeOk`), and returns the byte. -/
+theorem scopesFromByte_eq (b : Nat) (h : b < 256) :
+    (GoFuncs.wireScopesFromByte (b : Int) = ((b : Int), "ok")) ↔ scopeOk (UInt8.ofNat b) = true := by
+  have := List.all_eq_true.mp scopesFromByte_all b (by simp [List.mem_range]; exact h)
+  simp only [Bool.and_eq_true, beq_iff_eq] at this
+  have h1 := this.1
+  cases hs : scopeOk (UInt8.ofNat b) with
+  | true => rw [hs] at h1; simp at h1; simp [h1]
+  | false => rw [hs] at h1; simp at h1; simp [h1]
+
+set_option maxRecDepth 1000000 in
+theorem signerDecode_all : (List.range 256).all (fun b =>
+    let r := GoFuncs.wireSignerDecodeBinary 0 false (b : Int) true true
+    let sc := UInt8.ofNat b
+    (r.2.1 == !scopeOk sc)
+      && (!scopeOk sc || r.2.2 == "br.ReadBytes" :: ((if hasScope sc Generated.WireLimits.scopeCustomContracts then ["br.ReadArray"] else [])
+            ++ (if hasScope sc Generated.WireLimits.scopeCustomGroups then ["br.ReadArray"] else [])
+            ++ (if hasScope sc Generated.WireLimits.scopeRules then ["br.ReadArray"] else [])))) = true := by
+  decide
+
+/-- the translated `Signer.DecodeBinary` (signer.go:51-72) sets the reader's error exactly for the scope bytes the
+model's `scopeOk` refuses, and otherwise reads — after the account — one array per scope bit CustomContracts,
+CustomGroups, Rules, in this order (the model's `signerBody`). -/
+theorem signerDecodeBinary_eq (b : Nat) (h : b < 256) :
+    let r := GoFuncs.wireSignerDecodeBinary 0 false (b : Int) true true
+    (r.2.1 = true ↔ scopeOk (UInt8.ofNat b) = false)
+      ∧ (scopeOk (UInt8.ofNat b) = true → r.2.2 = "br.ReadBytes" ::
+          ((if hasScope (UInt8.ofNat b) Generated.WireLimits.scopeCustomContracts then ["br.ReadArray"] else [])
+            ++ (if hasScope (UInt8.ofNat b) Generated.WireLimits.scopeCustomGroups then ["br.ReadArray"] else [])
+            ++ (if hasScope (UInt8.ofNat b) Generated.WireLimits.scopeRules then ["br.ReadArray"] else []))) := by
+  have := List.all_eq_true.mp signerDecode_all b (by simp [List.mem_range]; exact h)
+  simp only [Bool.and_eq_true, beq_iff_eq, Bool.or_eq_true, Bool.not_eq_true'] at this
+  obtain ⟨h1, h2⟩ := this
+  refine ⟨?_, ?_⟩
+  · rw [h1]; cases scopeOk (UInt8.ofNat b) <;> simp
+  · intro hok
+    rcases h2 with h2 | h2
+    · rw [hok] at h2; simp at h2
+    · exact h2
+
+/-! ### checked integer conversions used by Contract.FromStackItem -/
+
+/-- `stackitem.ToInt32` / `ToUint16` accept exactly the ranges the model's `Contract.fromItem` uses for ID and
+UpdateCounter (regenerated table WireManifest), and return the number unchanged. -/
+theorem toInt32_eq (i : Int) :
+    (GoFuncs.wireToInt32 i false = (i, "ok")) ↔ (Generated.WireManifest.contractIdLo ≤ i ∧ i ≤ Generated.WireManifest.contractIdHi) := by
+  unfold GoFuncs.wireToInt32 GoFuncs.wrapS
+  simp only [Generated.WireManifest.contractIdLo, Generated.WireManifest.contractIdHi]
+  constructor
+  · intro h
+    split at h
+    · simp at h
+    · split at h
+      · simp at h
+      · omega
+  · intro h
+    simp only [Bool.false_eq_true, if_false]
+    rw [if_neg (by omega)]
+    have : (i + 2 ^ (32 - 1)) % 2 ^ 32 - 2 ^ (32 - 1) = i := by omega
+    rw [this]
+
+theorem toUint16_eq (i : Int) :
+    (GoFuncs.wireToUint16 i false = (i, "ok")) ↔
+      (Generated.WireManifest.contractUpdateCounterLo ≤ i ∧ i ≤ Generated.WireManifest.contractUpdateCounterHi) := by
+  unfold GoFuncs.wireToUint16
+  simp only [Generated.WireManifest.contractUpdateCounterLo, Generated.WireManifest.contractUpdateCounterHi]
+  constructor
+  · intro h
+    split at h
+    · simp at h
+    · split at h
+      · simp at h
+      · omega
+  · intro h
+    simp only [Bool.false_eq_true, if_false]
+    rw [if_neg (by omega)]
+    have : i % 65536 = i := by omega
+    rw [this]
+
+/-- `ByteArray.TryInteger`: at most MaxBytesLen = 32 bytes (the model's `Item.tryInteger`). -/
+theorem byteArrayTryInteger_eq (len v : Int) :
+    (GoFuncs.wireByteArrayTryInteger len v = (v, "ok")) ↔ len ≤ (Generated.WireLimits.bigintMaxBytesLen : Int) := by
+  unfold GoFuncs.wireByteArrayTryInteger
+  simp only [Generated.WireLimits.bigintMaxBytesLen]
+  constructor
+  · intro h; split at h
+    · simp at h
+    · omega
+  · intro h; rw [if_neg (by omega)]
+
+/-! ### var-uint writer -/
+
+/-- `io.PutVarUint` returns the length of the model's `putVarUint` and writes its first byte, for every 64-bit value. -/
+theorem putVarUint_eq (v : Nat) (h : v < 2 ^ 64) (d0 d8 : Int) :
+    (GoFuncs.wirePutVarUint (v : Int) d0 d8).1 = ((putVarUint v).length : Int)
+      ∧ ((putVarUint v).head?.map (fun b => (b.toNat : Int))) = some (GoFuncs.wirePutVarUint (v : Int) d0 d8).2.1 := by
+  unfold GoFuncs.wirePutVarUint putVarUint
+  simp only []
+  by_cases h1 : v < 0xfd
+  · have : (v : Int) < 253 := by omega
+    simp only [h1, this, if_true]
+    refine ⟨by simp, ?_⟩
+    simp [UInt8.toNat_ofNat']
+  · have hn : ¬ ((v : Int) < 253) := by omega
+    simp only [h1, hn, if_false]
+    by_cases h2 : v ≤ 0xFFFF
+    · have : (v : Int) ≤ 65535 := by omega
+      simp only [h2, this, if_true]
+      simp [leBytes]
+    · have hn2 : ¬ ((v : Int) ≤ 65535) := by omega
+      simp only [h2, hn2, if_false]
+      by_cases h3 : v ≤ 0xFFFFFFFF
+      · have : (v : Int) ≤ 4294967295 := by omega
+        simp only [h3, this, if_true]
+        simp [leBytes]
+      · have hn3 : ¬ ((v : Int) ≤ 4294967295) := by omega
+        simp only [h3, hn3, if_false]
+        simp [leBytes]
+
+/-! ### cached size of a transaction (fix 67279e2) and the FromBytes constructor -/
+
+/-- `Transaction.DecodeBinary` followed by its trailing `Size()`: after a successful decode the cached size is the
+freshly computed one, WHATEVER it was before (the reset of fix 67279e2 — the model's `TxObj.decode`); `Size()` on its
+own computes only when the cache is 0 (`TxObj.sizeOf`). -/
+theorem txDecodeBinary_size (old g : Int) :
+    (GoFuncs.wireTxSize (GoFuncs.wireTxDecodeBinary old false g).1 g).1 = g
+      ∧ (∀ sz, sz ≠ 0 → GoFuncs.wireTxSize sz g = (sz, sz)) ∧ GoFuncs.wireTxSize 0 g = (g, g) := by
+  refine ⟨by simp [GoFuncs.wireTxDecodeBinary, GoFuncs.wireTxSize], ?_, by simp [GoFuncs.wireTxSize]⟩
+  intro sz hsz
+  simp [GoFuncs.wireTxSize, hsz]
+
+/-- `NewTransactionFromBytes`: accepted iff the decoder reports no error AND nothing is left unread; the cached size
+is then the number of received bytes (the model's `txFromBytes`). -/
+theorem newTransactionFromBytes_eq (sz tx rd : Int) (err : Bool) (rest len : Int) :
+    ((GoFuncs.wireNewTransactionFromBytes sz tx rd err rest len).2.1 = "ok" ↔ (err = false ∧ rest = 0))
+      ∧ ((GoFuncs.wireNewTransactionFromBytes sz tx rd err rest len).2.1 = "ok" →
+          (GoFuncs.wireNewTransactionFromBytes sz tx rd err rest len).2.2.1 = len) := by
+  unfold GoFuncs.wireNewTransactionFromBytes
+  simp only []
+  cases err <;> by_cases hr : rest = 0 <;> simp [hr]
+
+/-! ### small decoders: boundaries -/
+
+/-- `Header.DecodeBinary`: the witness count must be exactly 1 (the model's `refine varUint (· == 1)`), and the
+witness is read only then. -/
+theorem headerDecodeBinary_eq (n : Int) :
+    ((GoFuncs.wireHeaderDecodeBinary false n true).1 = true ↔ n ≠ 1)
+      ∧ (n = 1 → (GoFuncs.wireHeaderDecodeBinary false n true).2 = ["b.decodeHashableFields", "b.Script.DecodeBinary"]) := by
+  unfold GoFuncs.wireHeaderDecodeBinary
+  simp only []
+  by_cases h : n = 1 <;> simp [h]
+
+/-- `GetBlockByIndex.DecodeBinary`: Count (int16) is −1 or 1..MaxHeadersAllowed. -/
+theorem getBlockByIndexDecodeBinary_eq (idx c : Int) (hc : 0 ≤ c ∧ c < 65536) :
+    (GoFuncs.wireGetBlockByIndexDecodeBinary 0 0 false idx c true).2.2 = true ↔
+      ¬ (c = 65535 ∨ (1 ≤ c ∧ c ≤ 2000)) := by
+  unfold GoFuncs.wireGetBlockByIndexDecodeBinary GoFuncs.wrapS
+  simp only []
+  by_cases h1 : c < 32768
+  · have : (c + 2 ^ (16 - 1)) % 2 ^ 16 - 2 ^ (16 - 1) = c := by omega
+    rw [this]
+    split <;> simp <;> omega
+  · have : (c + 2 ^ (16 - 1)) % 2 ^ 16 - 2 ^ (16 - 1) = c - 65536 := by omega
+    rw [this]
+    split <;> simp <;> omega
+
+/-- `MethodToken.DecodeBinary`: a method name starting with `_` and a call flag outside `callflag.All` are refused. -/
+theorem methodTokenDecodeBinary_eq (m pc cf f : Int) (hr : Bool) (pre : Bool) (hf : 0 ≤ f ∧ f < 256) :
+    (GoFuncs.wireMethodTokenDecodeBinary 0 false 0 false 0 m pre true pc hr f true).2.1 = true ↔
+      (pre = true ∨ GoFuncs.bandnot f 15 ≠ 0) := by
+  unfold GoFuncs.wireMethodTokenDecodeBinary
+  simp only []
+  have : f % 256 = f := by omega
+  rw [this]
+  cases pre <;> simp
+  by_cases h : GoFuncs.bandnot f 15 = 0 <;> simp [h]
+
+/-- `nef.File.bytes(checkSize)`: refused over stackitem.MaxSize only when the size is checked (the model's `nefBytes`). -/
+theorem nefFileBytes_eq (w res len : Int) :
+    ((GoFuncs.wireNefFileBytes true w false res len).2.1 = "ok" ↔ len ≤ (Generated.WireLimits.stackMaxSize : Int))
+      ∧ (GoFuncs.wireNefFileBytes false w false res len).2.1 = "ok" := by
+  unfold GoFuncs.wireNefFileBytes
+  simp only [Generated.WireLimits.stackMaxSize]
+  constructor
+  · by_cases h : len > 131070 <;> simp [h] <;> omega
+  · simp
+
+/-- `OracleResponse.DecodeBinary` (oracle.go:95-112): an invalid code is an error and the result is not read; a result is
+allowed only with code Success = 0 (the model's `oracleC`: `refine … (code == 0 || result.isEmpty)` after the code
+check). -/
+theorem oracleResponseDecodeBinary_eq (id code res len : Int) (valid : Bool) (hc : 0 ≤ code ∧ code < 256) (hl : 0 ≤ len) :
+    (GoFuncs.wireOracleResponseDecodeBinary 0 0 false 0 id code valid true res len true).2.2.1 = true ↔
+      (valid = false ∨ (code ≠ 0 ∧ len ≠ 0)) := by
+  unfold GoFuncs.wireOracleResponseDecodeBinary
+  simp only []
+  have : code % 256 = code := by omega
+  rw [this]
+  cases valid
+  · simp
+  · simp only [not_true_eq_false, if_false, Bool.true_eq_false, false_or]
+    by_cases h : code ≠ 0 ∧ len > 0
+    · rw [if_pos h]; simp; omega
+    · rw [if_neg h]; simp; omega
 
 end NeoModel.GoFuncsTie
